@@ -36,7 +36,7 @@ ASSUMPTIONS = [
     'interleavings are explored at the granularity of API events (the harness owns the schedule), not of bytecodes',
     'Config objects are created by the `with Config(...)` statement itself, never pre-built and entered later',
 ]
-EXAMPLES = {'quick': 60, 'thorough': 1500}
+EXAMPLES = {'quick': 220, 'thorough': 3000}
 
 FIELDS = ('solver', 'solver_throw', 'solver_options', 'solver_callback')
 
